@@ -85,9 +85,7 @@ fn clean_stream(rng: &mut Rng, case: u64, i: usize) -> StreamSpec {
         if body.is_empty() {
             data.push(vec![]);
         }
-        // (rare: sozu's HTTP/1.1 serialisation of any request with trailers is broken, finding
-        // `h2/trailers_break_http1_framing`; the h2_trailers family covers them)
-        if rng.chance(1, 40) {
+        if rng.chance(1, 6) {
             trailers = Some(vec![f("x-trailer", "t1")]);
         }
     }
@@ -727,11 +725,16 @@ fn judge(input: &H2Case, ex: &H2Exchange, rep: &mut Report, count: bool) -> (Vec
         }
         if let StreamEnd::Error { at, class, why } = &strict.end {
             let lte = read_stream(&c.bytes, Mode::LenientTe);
-            // the request the reader was in (or had just finished) when it stopped: does its stream carry trailers?
+            // the request the reader was in when it stopped: does its stream carry trailers? (a
+            // request the strict reader read to its end, trailers included, is not the culprit:
+            // the error then belongs to the message that follows it on the connection)
             let upto = &c.bytes[..(*at).min(c.bytes.len())];
             let with_trailers = input.streams.iter().any(|s| {
                 s.trailers.is_some()
                     && hget(&s.headers, ":path").is_some_and(|p| {
+                        if strict.reqs.iter().any(|q| q.target == p) {
+                            return false;
+                        }
                         let line = [b" ".as_ref(), p, b" HTTP/1.1\r\n"].concat();
                         // last request line before the error offset
                         let last_any = upto.windows(11).rposition(|w| w == b" HTTP/1.1\r\n");
